@@ -256,6 +256,10 @@ func (g *Gen) Next(now int64) Op {
 			if g.R.Intn(3) == 0 {
 				op.Via = "handler"
 			}
+			if g.R.Intn(12) == 0 {
+				// a request that names no id at all: it changes nothing
+				op.Refs, op.Via = nil, "handler"
+			}
 			return op, true
 		}},
 		{p.Advance, func() (Op, bool) {
@@ -283,6 +287,9 @@ func (g *Gen) Next(now int64) Op {
 			back := int64(g.R.Intn(400)) * Sec
 			if g.R.Intn(5) == 0 {
 				back = -int64(g.R.Intn(50)) * Sec // future
+				if g.R.Intn(2) == 0 {
+					back = -int64(60+g.R.Intn(7200)) * Sec // far in the future: the purge idiom
+				}
 			}
 			t := now - back
 			if len(g.PubTimes) > 0 && g.R.Intn(3) == 0 {
